@@ -257,6 +257,16 @@ func (ps *propertyServer) Apply(ctx context.Context, req *propertyv1.ApplyReques
 	return ps.mergeProperty(ctx, start, uint64(shardID), nodes, prev, property)
 }
 
+// supersedes reports whether state a wins over state b of the same property: the higher mod revision, and at the
+// same revision the tombstone (a delete marks the revision it deletes, so a replica that missed the delete still
+// answers with the live copy of that revision).
+func supersedes(a, b *propertyWithMetadata) bool {
+	if a.Metadata.ModRevision != b.Metadata.ModRevision {
+		return a.Metadata.ModRevision > b.Metadata.ModRevision
+	}
+	return a.deletedTime > 0 && b.deletedTime <= 0
+}
+
 func (ps *propertyServer) findPrevAndOlderProperties(nodeProperties map[string][]*propertyWithMetadata) (*propertyWithMetadata, []*propertyWithMetadata) {
 	var prevPropertyWithMetadata *propertyWithMetadata
 	var olderProperties []*propertyWithMetadata
@@ -267,7 +277,7 @@ func (ps *propertyServer) findPrevAndOlderProperties(nodeProperties map[string][
 				olderProperties = append(olderProperties, p)
 			}
 			// update the prov property
-			if prevPropertyWithMetadata == nil || p.Metadata.ModRevision > prevPropertyWithMetadata.Metadata.ModRevision {
+			if prevPropertyWithMetadata == nil || supersedes(p, prevPropertyWithMetadata) {
 				prevPropertyWithMetadata = p
 			}
 		}
@@ -543,14 +553,14 @@ func (ps *propertyServer) sortedQueryWithDedup(
 
 		// Check if we've seen this entity before
 		if existingCount, seen := seenIDs[entity]; seen {
-			// Same modRevision - accumulate node
-			if p.Metadata.ModRevision == existingCount.Metadata.ModRevision {
+			// Same state - accumulate node
+			if p.Metadata.ModRevision == existingCount.Metadata.ModRevision && (p.deletedTime > 0) == (existingCount.deletedTime > 0) {
 				existingCount.addExistNode(p.node)
 				continue
 			}
 
-			// Older modRevision - skip
-			if p.Metadata.ModRevision < existingCount.Metadata.ModRevision {
+			// Older state (lower modRevision, or the live copy of a revision another node holds the tombstone of) - skip
+			if !supersedes(p, existingCount.propertyWithMetadata) {
 				continue
 			}
 
@@ -682,9 +692,9 @@ func (ps *propertyServer) simpleDedupWithoutSort(
 
 			if existing, seen := seenIDs[entity]; seen {
 				switch {
-				case existing.Metadata.ModRevision < p.Metadata.ModRevision:
+				case supersedes(p, existing.propertyWithMetadata):
 					seenIDs[entity] = newPropertyWithCounts(p, entity, n)
-				case existing.Metadata.ModRevision == p.Metadata.ModRevision:
+				case existing.Metadata.ModRevision == p.Metadata.ModRevision && (existing.deletedTime > 0) == (p.deletedTime > 0):
 					existing.addExistNode(n)
 				}
 			} else {
